@@ -53,6 +53,30 @@ def opaque_in_expander(facts):
     return out
 
 
+def template_aware_in_expander(facts):
+    """keywords transform_procedure_application recognises with a Cell::is_* predicate and hands to a dedicated walker
+    instead of the generic element-by-element descent: {keyword: walker}"""
+    f = facts.fn(TPA)
+    out = {}
+    if f is None:
+        return out
+    generic = [bb for bb, t in f.calls() if callee(t) == COMPILE + "transform"]
+    for bb, t in f.calls():
+        c = callee(t) or ""
+        if not c.startswith("marwood::cell::Cell::is_") or t.get("target") is None:
+            continue
+        kw = keyword_of_predicate(facts, c)
+        sw = f.blocks[t["target"]]["term"]
+        if not kw or sw["k"] != "switch":
+            continue
+        tru = sw["otherwise"]
+        region = f.reach_from(tru, avoid=[sw_t for v, sw_t in sw["targets"]])
+        walkers = [callee(t2) for b2, t2 in f.calls() if b2 in region and (callee(t2) or "").startswith(COMPILE) and callee(t2) not in (TPA, COMPILE + "transform")]
+        if walkers and not any(g in region for g in generic):
+            out[kw] = walkers[0]
+    return out
+
+
 def scan_treatment(facts):
     """(opaque keywords, binding keywords) of the free-variable scan"""
     f = facts.fn(FFS)
@@ -92,9 +116,10 @@ def r01a(ctx, rep, rule="R01a", only=None):
     disp = compiler_dispatch(facts)
     rep.floor(rule, "keywords dispatched by compile_procedure_application", len(disp), 7)
     exp_opaque = opaque_in_expander(facts)
+    exp_aware = template_aware_in_expander(facts)
     scan_opaque, scan_binding = scan_treatment(facts)
     rep.floor(rule, "keywords opaque to the macro expander", len(exp_opaque), 2)
-    rep.floor(rule, "keywords opaque to the free-variable scan", len(scan_opaque), 2)
+    rep.floor(rule, "keywords opaque to the free-variable scan", len(scan_opaque), 1)
     rep.floor(rule, "binding keywords of the free-variable scan", len(scan_binding), 2)
     kind = {}
     for kw, h in disp.items():
@@ -128,6 +153,9 @@ def r01a(ctx, rep, rule="R01a", only=None):
                 key = "%s|expander|%s|literal-data-expanded" % (rule, kw)
                 if kw in exp_opaque:
                     rep.ok(rule, key, "`%s` carries literal data and the expander leaves it alone" % kw, [facts.fns[disp[kw]].span])
+                elif kw in exp_aware:
+                    rep.ok(rule, key, "`%s` carries literal data and the expander walks it with %s instead of the generic "
+                           "descent" % (kw, short_path(exp_aware[kw])), [facts.fns[disp[kw]].span])
                 else:
                     rep.fail(rule, key, "the handler of `%s` (%s) copies operand structure as literal data, but the macro "
                              "expander descends into `%s` forms like any application: literal lists that look like derived "
